@@ -136,6 +136,49 @@ func init() {
 				return "reject"
 			}
 		}
+		if o["nullify"] != nil {
+			// an event value that is absent: null on the wire, or an event without a value in memory
+			k := o.int("nullify")
+			if k >= len(upd.Events) {
+				return "bad-op nullify"
+			}
+			if o.str("transport") == "mem" {
+				upd.Events[k].E = nil
+			} else {
+				fresh := &revocation.Update{SignedAccumulator: &revocation.SignedAccumulator{Data: unhb(sv["data"]), PKCounter: uint(Op(sv).int("pk"))}, Events: goEvents(absOf(o["events"]))}
+				bts, err := json.Marshal(fresh)
+				if err != nil {
+					return "reject"
+				}
+				var doc any
+				if json.Unmarshal(bts, &doc) != nil {
+					return "reject"
+				}
+				var nullAt func(n any) bool
+				nullAt = func(n any) bool {
+					if m, ok := n.(map[string]any); ok {
+						if arr, ok := m["e"].([]any); ok && k < len(arr) {
+							arr[k] = nil
+							return true
+						}
+						for _, v := range m {
+							if nullAt(v) {
+								return true
+							}
+						}
+					}
+					return false
+				}
+				if !nullAt(doc) {
+					return "bad-op no value array"
+				}
+				bts, _ = json.Marshal(doc)
+				upd = &revocation.Update{}
+				if err := json.Unmarshal(bts, upd); err != nil {
+					return "reject"
+				}
+			}
+		}
 		if o["post"] != nil {
 			// the received (decoded) event objects altered in place before they are verified
 			post := absOf(o["post"])
@@ -522,6 +565,15 @@ func genC10(g *Rng, tier string, emit func(Op)) {
 					for _, m := range muts {
 						e2, d2, c2, v2 := m.f(cloneEvs(evs))
 						emit(c.updateOp(e2, accIdx, d2, c2, v2, transport, m.name))
+					}
+					// an event value that is absent (each position, the last one included)
+					if (transport == "mem" || transport == "json") && len(evs) >= 1 {
+						for i := range evs {
+							o := c.updateOp(cloneEvs(evs), accIdx, data, counter, kp, "mem", "x")
+							o["class"], o["label"], o["nomodel"] = "event-value-null-"+transport, "reject", true
+							o["transport"], o["nullify"], o["fkey"] = transport, i, "C10/event-value-null"
+							emit(o)
+						}
 					}
 					// the genuine message decoded from the wire, its event objects altered afterwards
 					// (each event in turn: value, index, parent hash): what is verified is what is there now
